@@ -1243,7 +1243,8 @@ Proof. intros a. unfold mono_eqb. rewrite Qc_eqb_refl, !Nat.eqb_refl. reflexivit
 
 Lemma opr_eqb_eq : forall a b, opr_eqb a b = true -> a = b.
 Proof.
-  intros [f1 g1 d1 fd1] [f2 g2 d2 fd2] H. unfold opr_eqb in H. cbn in H.
+  intros [f1 g1 d1 fd1 dc1] [f2 g2 d2 fd2 dc2] H. unfold opr_eqb in H. cbn in H.
+  apply andb_true_iff in H as [H Hdc]. apply Nat.eqb_eq in Hdc.
   repeat (apply andb_true_iff in H as [H ?]).
   apply (list_eqb_eq _ mono_eqb_eq) in H. apply Qc_eqb_eq in H1.
   apply (list_eqb_eq _ (fun x y E => proj1 (Nat.eqb_eq x y) E)) in H0.
@@ -1253,7 +1254,7 @@ Proof.
 Qed.
 Lemma opr_eqb_refl : forall a, opr_eqb a a = true.
 Proof.
-  intros [f g d fd]. unfold opr_eqb. cbn. rewrite (list_eqb_refl _ mono_eqb_refl), Qc_eqb_refl.
+  intros [f g d fd dc]. unfold opr_eqb. cbn. rewrite Nat.eqb_refl, andb_true_r. rewrite (list_eqb_refl _ mono_eqb_refl), Qc_eqb_refl.
   rewrite (list_eqb_refl _ Nat.eqb_refl). destruct g; cbn; [rewrite (list_eqb_refl _ mono_eqb_refl)|]; reflexivity.
 Qed.
 Lemma ops_eqb_eq : forall a b, ops_eqb a b = true -> a = b.
@@ -1705,8 +1706,8 @@ Proof. intros c st W. rewrite !mimpl_is_mspec by exact W. reflexivity. Qed.
 
 (* non-vacuity: node types {s0,s1,m} and {s1,s2,m} (same structure, operator names shifted: the rename chain of D58) and
    {s0,m} (differs only in the multiplicity of an operator structure); weightless and weighted edges *)
-Definition mS : opr := Opr [Mono (q 1) 0 1 1; Mono (q (-1)) 1 0 0] None 0 [].
-Definition mM (fd : list nat) : opr := Opr [Mono (q 1) 0 1 1; Mono (q (-1)) 1 0 0] None 0 fd.
+Definition mS : opr := Opr [Mono (q 1) 0 1 1; Mono (q (-1)) 1 0 0] None 0 [] 0.
+Definition mM (fd : list nat) : opr := Opr [Mono (q 1) 0 1 1; Mono (q (-1)) 1 0 0] None 0 fd 0.
 Definition mw_ok : mcircuit :=
   MCirc [[mS; mS; mM [0; 1]%nat]; [mS; mS; mM [0; 1]%nat]; [mS; mM [0]%nat]]
         [MNode 0 [0; 1; 100]%nat [q 1; q 2; q 3]; MNode 1 [1; 2; 100]%nat [q 4; q 5; q 6]; MNode 2 [0; 100]%nat [q 7; q 8];
@@ -1719,4 +1720,18 @@ Lemma multiop_nonvacuous :
   qlist_eqb (mimpl true mw_ok mst_ok) (mspec mw_ok mst_ok) = true /\
   qlist_eqb (mimpl false mw_ok mst_ok) (mspec mw_ok mst_ok) = true /\
   qlist_eqb (mspec mw_ok mst_ok) [q (-1); q 10; q 6; q 20; q (-5); q 48; mkq 63 2; q 48; q (-9); q 260; q 198] = true.
+Proof. repeat (match goal with |- _ /\ _ => split end); vm_compute; reflexivity. Qed.
+
+(* the way a variable is declared is part of the structural key: operators that differ only there are never matched,
+   node types that differ only there get different keys (seed C01-m6 drops the declarations from the hash) *)
+Lemma decl_in_key : forall a b, odecl a <> odecl b -> opr_eqb a b = false.
+Proof.
+  intros a b H. unfold opr_eqb. destruct (Nat.eqb_spec (odecl a) (odecl b)) as [E|E]; [contradiction|apply andb_false_r].
+Qed.
+
+Definition mS_int : opr := Opr [Mono (q 1) 0 1 1; Mono (q (-1)) 1 0 0] None 0 [] 1.     (* same equations as mS, k declared int *)
+Definition mw_decl : mcircuit :=
+  MCirc [[mS_int]; [mS]] [MNode 0 [0]%nat [q 10]; MNode 1 [0]%nat [mkq 25 2]; MNode 0 [0]%nat [q 12]] [].
+Lemma decl_variants_not_merged :
+  mwf mw_decl = true /\ mkeys true mw_decl = [0; 1; 0]%nat /\ canon mw_decl 1 = 1%nat.
 Proof. repeat (match goal with |- _ /\ _ => split end); vm_compute; reflexivity. Qed.
